@@ -13,7 +13,7 @@ import sys
 import time
 import traceback
 
-from .report import load_known, write_evidence, write_findings
+from .report import load_known, split_known, write_evidence, write_findings
 from .terms import AnalysisError
 
 ASSUMPTIONS = [
@@ -87,14 +87,12 @@ def run_property(prop, tier, A, seed):
         for l in tb[-8:]:
             print("   " + l)
         return 2
-    kn = {k["key"]: k for k in known.get("known", []) if k.get("property") == prop}
     findings = [f for r in rules for f in r.findings]
-    new = [f for f in findings if f.key not in kn]
-    old = [f for f in findings if f.key in kn]
+    new, old = split_known(findings, [k for k in known.get("known", []) if k.get("property") == prop])
     for r in rules:
         print(f"  {r.rid}: {len(r.instances)} instance(s), {r.obligations} obligation(s), {len(r.findings)} finding(s)")
-    for f in old:
-        print(f"KNOWN-FINDING: property={prop} {f.rule} {f.func}: {kn[f.key].get('what', f.message)}")
+    for f, k in old:
+        print(f"KNOWN-FINDING: property={prop} {f.rule} {f.func}: {k.get('what', f.message)}")
     extra = {
         "explanation": explanation(prop, rules),
         "exhaustive": True,
